@@ -31,7 +31,8 @@ PRIMNAMES = ['GND', 'VCC', 'INV', 'DFF', 'XOR2', 'RAMB', 'CARRY4']
 PNAMES = ['I', 'O', 'D', 'Q', 'C', 'CE', 'I0', 'I1', 'S', 'A', 'DI', 'DO', 'ADDR', 'WE', '\\P[0]', 'CLK', 'R']
 DIRS = ['input', 'output', 'inout']
 PARAM_VALUES = ["8'hFF", '42', '"str val"', "4'b1010", '1', '"TRUE"', "16'h00A5", '3.5', '-7'.replace('-', '')]
-ATTR_ITEMS = [['keep', '"true"'], ['DONT_TOUCH', None], ['src', '"f.v:12"'], ['mark', '1'], ['RLOC', '"X0Y0"'], ['flag', None]]
+ATTR_ITEMS = [['keep', '"true"'], ['DONT_TOUCH', None], ['src', '"f.v:12"'], ['mark', '1'], ['RLOC', '"X0Y0"'], ['flag', None],
+              ['init', "4'h0"], ['ratio', '1.5'], ['bias', '-2']]   # unquoted constants that are not plain unsigned decimals
 
 DEFAULT_FEATURES = {
     'fwd_named_any_order': False,   # D1: first forward named use may list ports in any order / partially
